@@ -184,6 +184,7 @@ Fixpoint sess_hyps (s : sess) (evs : list sevent) : bool :=
 Lemma create_database_err s name s' e : sess_stmt s (SCreateDatabase name) = (s', SOErr e) -> s' = s.
 Proof.
   cbn [sess_stmt]. destruct (String.eqb (lower name) ""); [intros H; inversion H; reflexivity|].
+  destruct (valid_dbname (lower name)); cbn [negb]; [|intros H; inversion H; reflexivity].
   destruct (get_db (lower name) (dbs s)); intros H; inversion H; reflexivity.
 Qed.
 
@@ -191,8 +192,10 @@ Lemma use_err s name s' e : sess_stmt s (SUse name) = (s', SOErr e) -> s' = s.
 Proof.
   cbn [sess_stmt]. destruct (cur s) as [c|].
   - destruct (String.eqb c (lower name)); [intros H; inversion H|].
+    destruct (valid_dbname (lower name)); cbn [negb]; [|intros H; inversion H; reflexivity].
     destruct (get_db (lower name) (dbs s)) as [y|], (get_db c (dbs s)) as [yc|]; intros H; inversion H; reflexivity.
-  - destruct (get_db (lower name) (dbs s)); intros H; inversion H; reflexivity.
+  - destruct (valid_dbname (lower name)); cbn [negb]; [|intros H; inversion H; reflexivity].
+    destruct (get_db (lower name) (dbs s)); intros H; inversion H; reflexivity.
 Qed.
 
 Lemma no_database_selected s st :
@@ -248,9 +251,11 @@ Proof.
     + reflexivity.
     + specialize (Hu un eq_refl). cbn [sess_stmt]. destruct (cur s) as [c|].
       * destruct (String.eqb c (lower un)); [reflexivity|].
+        destruct (valid_dbname (lower un)); cbn [negb]; [|reflexivity].
         destruct (get_db (lower un) (dbs s)) as [y|], (get_db c (dbs s)) as [yc|]; try reflexivity.
         cbn [fst dbs]. rewrite !set_db_other; [reflexivity | exact Hu | congruence].
-      * destruct (get_db (lower un) (dbs s)) as [y|]; [|reflexivity]. cbn [fst dbs]. apply set_db_other. exact Hu.
+      * destruct (valid_dbname (lower un)); cbn [negb]; [|reflexivity].
+        destruct (get_db (lower un) (dbs s)) as [y|]; [|reflexivity]. cbn [fst dbs]. apply set_db_other. exact Hu.
   - rewrite (sess_stmt_plain _ _ Hss). destruct (cur s) as [c|]; [|reflexivity].
     destruct (get_db c (dbs s)) as [y|]; [|reflexivity].
     cbn [fst dbs]. apply set_db_other. congruence.
@@ -267,6 +272,7 @@ Lemma frame_create s name n :
   get_db n (dbs s) <> None -> get_db n (dbs (fst (sess_stmt s (SCreateDatabase name)))) = get_db n (dbs s).
 Proof.
   intros Hn. cbn [sess_stmt]. destruct (String.eqb (lower name) ""); [reflexivity|].
+  destruct (valid_dbname (lower name)); cbn [negb]; [|reflexivity].
   destruct (get_db (lower name) (dbs s)); [reflexivity|]. cbn [fst dbs].
   rewrite get_db_aget, aget_app. rewrite <- get_db_aget. destruct (get_db n (dbs s)); [reflexivity | congruence].
 Qed.
@@ -378,6 +384,8 @@ Proof.
     3:{ (* CREATE DATABASE *)
       cbn [sess_step sess_stmt]. destruct (String.eqb_spec (lower dn) "") as [E0|E0].
       { exists s. cbn [fst snd spec_ev]. auto. }
+      destruct (valid_dbname (lower dn)); cbn [negb].
+      2:{ exists s. cbn [fst snd spec_ev]. auto. }
       destruct (get_db (lower dn) (dbs s)) as [y|] eqn:Eg.
       { exists s. cbn [fst snd spec_ev]. auto. }
       eexists. cbn [fst snd spec_ev]. split; [reflexivity|]. split; [|reflexivity].
@@ -397,6 +405,8 @@ Proof.
       cbn [sess_step sess_stmt]. destruct (cur s) as [c|] eqn:Ec.
       - destruct (String.eqb_spec c (lower un)) as [Ecn|Ecn].
         { exists s. cbn [fst snd spec_ev]. split; [reflexivity|]. split; [exact HS | congruence]. }
+        destruct (valid_dbname (lower un)); cbn [negb].
+        2:{ exists s. cbn [fst snd spec_ev]. auto. }
         destruct (sv_get_some s sp c HS (sv_cur _ _ HS c Ec)) as [yc Eyc]. rewrite Eyc.
         destruct (get_db (lower un) (dbs s)) as [y|] eqn:Ey.
         2:{ exists s. cbn [fst snd spec_ev]. auto. }
@@ -422,7 +432,9 @@ Proof.
             -- intros En. destruct (sv_dbs _ _ HS n z En) as (dn' & Edn & HDn & Hmn).
                exists dn'. split; [exact Edn|]. split; [exact HDn|]. intros _. apply Hmn.
                rewrite Ec. cbn. apply String.eqb_neq. exact Hcn.
-      - destruct (get_db (lower un) (dbs s)) as [y|] eqn:Ey.
+      - destruct (valid_dbname (lower un)); cbn [negb].
+        2:{ exists s. cbn [fst snd spec_ev]. split; [reflexivity|]. split; [exact HS | exact Ec]. }
+        destruct (get_db (lower un) (dbs s)) as [y|] eqn:Ey.
         2:{ exists s. cbn [fst snd spec_ev]. split; [reflexivity|]. split; [exact HS | exact Ec]. }
         eexists. cbn [fst snd spec_ev]. split; [reflexivity|]. split; [|reflexivity].
         destruct (sv_dbs _ _ HS _ _ Ey) as (d & Ed & HD & Hm).
@@ -653,6 +665,8 @@ Proof.
     + destruct st as [q|tn cds|dn| |un|tn cols rows|tn sets w|tn w]; try discriminate; cbn [sess_stmt].
       * (* CREATE DATABASE *)
         destruct (String.eqb (lower dn) ""); [cbn [fst snd]; intros H; inversion H; subst; cbn [created1]; rewrite app_nil_r; auto|].
+        destruct (valid_dbname (lower dn)); cbn [negb];
+          [|cbn [fst snd]; intros H; inversion H; subst; cbn [created1]; rewrite app_nil_r; auto].
         destruct (get_db (lower dn) (dbs s)) eqn:Eg; cbn [fst snd]; intros H; inversion H; subst; cbn [created1 dbs].
         -- rewrite app_nil_r; auto.
         -- rewrite map_app. split; [reflexivity|]. intros Hnd. apply NoDup_app_intro_single; [exact Hnd|].
@@ -661,6 +675,8 @@ Proof.
       * (* USE *)
         destruct (cur s) as [c|].
         -- destruct (String.eqb c (lower un)); [cbn [fst snd]; intros H; inversion H; subst; cbn [created1]; rewrite app_nil_r; auto|].
+           destruct (valid_dbname (lower un)); cbn [negb];
+             [|cbn [fst snd]; intros H; inversion H; subst; cbn [created1]; rewrite app_nil_r; auto].
            destruct (get_db (lower un) (dbs s)) as [y|] eqn:Ey, (get_db c (dbs s)) as [yc|] eqn:Eyc; cbn [fst snd];
              intros H; inversion H; subst; cbn [created1 dbs]; rewrite app_nil_r; auto.
            assert (Ey' : get_db c (set_db (lower un) (open_db y) (dbs s)) = Some yc \/
@@ -669,7 +685,9 @@ Proof.
            assert (K : map fst (set_db c (close_db yc) (set_db (lower un) (open_db y) (dbs s))) = map fst (dbs s)).
            { destruct Ey' as [E|E]; rewrite (set_db_keys _ _ _ _ E), (set_db_keys _ _ _ _ Ey); reflexivity. }
            rewrite K. auto.
-        -- destruct (get_db (lower un) (dbs s)) as [y|] eqn:Ey; cbn [fst snd];
+        -- destruct (valid_dbname (lower un)); cbn [negb];
+             [|cbn [fst snd]; intros H; inversion H; subst; cbn [created1]; rewrite app_nil_r; auto].
+           destruct (get_db (lower un) (dbs s)) as [y|] eqn:Ey; cbn [fst snd];
              intros H; inversion H; subst; cbn [created1 dbs]; rewrite app_nil_r; auto.
            rewrite (set_db_keys _ _ _ _ Ey). auto.
     + rewrite (sess_stmt_plain _ _ Hss).
@@ -759,12 +777,16 @@ Lemma SessInv_no_panic s sp st : SessInv s sp -> stmt_bounded s st = true -> snd
 Proof.
   intros HS Hb. unfold stmt_bounded in Hb. destruct (is_session_stmt st) eqn:Hss.
   - destruct st as [q|tn cds|dn| |un|tn cols rows|tn sets w|tn w]; try discriminate; cbn [sess_stmt].
-    + destruct (String.eqb (lower dn) ""); [cbn; discriminate|]. destruct (get_db (lower dn) (dbs s)); cbn; discriminate.
+    + destruct (String.eqb (lower dn) ""); [cbn; discriminate|].
+      destruct (valid_dbname (lower dn)); cbn [negb]; [|cbn; discriminate].
+      destruct (get_db (lower dn) (dbs s)); cbn; discriminate.
     + destruct (cur s) as [c|] eqn:Ec.
       * destruct (String.eqb c (lower un)); [cbn; discriminate|].
+        destruct (valid_dbname (lower un)); cbn [negb]; [|cbn; discriminate].
         destruct (sv_get_some s sp c HS (sv_cur _ _ HS c Ec)) as [yc ->].
         destruct (get_db (lower un) (dbs s)); cbn; discriminate.
-      * destruct (get_db (lower un) (dbs s)); cbn; discriminate.
+      * destruct (valid_dbname (lower un)); cbn [negb]; [|cbn; discriminate].
+        destruct (get_db (lower un) (dbs s)); cbn; discriminate.
   - cbn [orb] in Hb. rewrite (sess_stmt_plain _ _ Hss). destruct (cur s) as [c|] eqn:Ec; [|cbn; discriminate].
     destruct (sv_get_some s sp c HS (sv_cur _ _ HS c Ec)) as [y Ey]. rewrite Ey in *. cbn [snd].
     destruct (sv_dbs _ _ HS _ _ Ey) as (d & _ & [HR _] & _).
